@@ -247,7 +247,7 @@ def replay(rec):
     import pydl.pydlutils.spheregroup as sg
     d = rec['detail'] or {}
     inp = rec['inputs'] or {}
-    n = d['n']
+    n = d.get('n', 0)
     L = _f(inp['L'])
     D = np.zeros((n, n))
     for i in range(n):
